@@ -319,6 +319,13 @@ class _NoSocket(object):
     def close(self):
         pass
 
+    sent = []
+
+    def send_scp(self, buffer_size, x, y, p, cmd, *a, **k):
+        import types
+        _NoSocket.sent.append([int(x), int(y), int(p), int(cmd)])
+        return types.SimpleNamespace(arg1=0, arg2=0, arg3=0, data=b"", cmd_rc=0x80)
+
 
 def _controllers(**kw):
     import rig.machine_control.machine_controller as mcm
@@ -372,6 +379,23 @@ def p_controller_default_contexts():
     """the contextual arguments in force in a newly constructed MachineController / BMPController (default initial context)"""
     mc, bc = _controllers()
     return [canon(mc.get_context_arguments()), canon(bc.get_context_arguments())]
+
+
+def p_controller_required_arguments():
+    """a newly constructed controller asked to send a command WITHOUT the arguments nothing supplies (chip and core / none for
+    the BMP's defaults): refused - never sent to a destination some other controller, or an earlier block, was using"""
+    out = []
+    mc, bc = _controllers()
+    for label, call in (("mc.send_scp(1)", lambda: mc.send_scp(1)), ("mc.send_scp(1, x=0)", lambda: mc.send_scp(1, x=0)),
+                        ("mc.send_scp(1, y=7, p=1)", lambda: mc.send_scp(1, y=7, p=1)), ("mc.send_scp(1, x=1, y=2, p=3)", lambda: mc.send_scp(1, x=1, y=2, p=3)),
+                        ("bc.send_scp(2)", lambda: bc.send_scp(2)), ("bc.send_scp(2, board=4)", lambda: bc.send_scp(2, board=4))):
+        del _NoSocket.sent[:]
+        try:
+            call()
+            out.append([label, "sent", list(_NoSocket.sent)])
+        except Exception as e:      # noqa
+            out.append([label, type(e).__name__, list(_NoSocket.sent)])
+    return out
 
 
 PROBES = dict((n[2:], f) for n, f in sorted(globals().items()) if n.startswith("p_"))
@@ -485,6 +509,12 @@ def h_objects():
     bc.update_current_context(board=5)
     with mc(p=3):
         mc.update_current_context(p=4)
+    with mc(x=3, y=4, p=5):                      # ... and commands sent from inside blocks, every argument taken from the block
+        mc.send_scp(99)
+        with mc(p=6):
+            mc.send_scp(98, y=9)
+    with bc(cabinet=0, frame=0, board=3):
+        bc.send_scp(97)
     given = {"x": 7}
     mc2, bc2 = _controllers(mc={"initial_context": given}, bmp={"initial_context": {"cabinet": 1}})
     mc2.update_current_context(y=8)
